@@ -6,6 +6,7 @@ Full statement (`C01_full_statement`) vs what is proved (`C01_partial`): see the
 -/
 import SqlframeModel.Lemmas.C01Steps
 import SqlframeModel.Lemmas.C01Dropna
+import SqlframeModel.Lemmas.Sorted
 namespace Sqlframe
 open Gen
 
@@ -348,6 +349,28 @@ theorem C01_orderBy_twice (d : DF) (h : Inv d) (hl : d.last = .orderBy) (k2 : Li
     cases d.blk.order with
     | nil => exact List.Perm.refl _
     | cons k ks => exact (sortBy_perm _ _).symm
+
+/-- The specification's `orderBy` really sorts, for every table and key list (directions and NULL
+    placement included): same columns, a permutation of the rows, every earlier row may precede every
+    later one.  (`Table.sort` uses one particular stable sort; nothing is claimed about tie order.) -/
+theorem C01_sort_spec (T : Table) (keys : List OrdKey) :
+    (T.sort keys).cols = T.cols ∧ (T.sort keys).rows.Perm T.rows ∧
+    (T.sort keys).rows.Pairwise (fun r1 r2 => rowLe T.cols keys r1 r2 = true) := sort_spec T keys
+
+/-- **row order after the last orderBy**: for any in-scope chain that ends with `orderBy keys`, what the
+    pipeline returns is a permutation of the sequential result *before* that step, sorted by the keys. -/
+theorem C01_last_orderBy_sorted (T : Table) (steps : List Step) (keys : List OrdKey) (hT : T.WF)
+    (hs : StepsWF T (steps ++ [Step.orderBy keys])) (hsc : noAdjacentOrderBy (steps ++ [Step.orderBy keys]) = true)
+    (hin : (steps ++ [Step.orderBy keys]).all Step.inTheorem = true) :
+    let out := ((DF.init T).run (steps ++ [Step.orderBy keys])).eval
+    out.cols = (specRun T steps).cols ∧ out.rows.Perm (specRun T steps).rows ∧
+    out.rows.Pairwise (fun r1 r2 => rowLe (specRun T steps).cols keys r1 r2 = true) := by
+  intro out
+  have h := C01_partial T (steps ++ [Step.orderBy keys]) hT hs hsc hin
+  have e : out = (specRun T steps).sort keys := by
+    simp only [out, h, specRun, List.foldl_append, List.foldl_cons, List.foldl_nil, specStep]
+  rw [e]
+  exact sort_spec _ keys
 
 /-! ### non-vacuity: a concrete program and table meet every hypothesis -/
 
